@@ -8,15 +8,101 @@ import IweModel.Lemmas.Paths
 namespace Iwe.C18
 open Iwe Iwe.Paths
 
+/-- `Includes g a d`: the section of heading `a` directly holds a block reference to the note whose
+`Document` node is `d` (`direct`), or it includes — in this sense — a note `d'` that holds, outside of
+any section (before its first heading), a block reference to the note `d` (`via`).  This is what
+`paths_for_node` follows: for a `Document` node it continues with the parents of the block
+references to it, and such a parent may itself be a `Document` node. -/
+inductive Includes (g : Graph) (a : Nat) : Nat → Prop
+  | direct {r : Nat} {key : String} {d i : Nat} {child : Option Nat} :
+      (key, r) ∈ g.blockRefs → Arena.toParent g.arena (fuelOf g) r = some a
+      → g.node d = .document i child key → Includes g a d
+  | via {r : Nat} {key : String} {d d' i : Nat} {child : Option Nat} :
+      (key, r) ∈ g.blockRefs → Arena.toParent g.arena (fuelOf g) r = some d' → Includes g a d'
+      → g.node d = .document i child key → Includes g a d
+
 /-- one step of an outline path: from a heading to one of its sub-headings, or from a heading whose
-section directly holds a block reference `r` to a top-level heading of the referenced note -/
+section holds a block reference (directly, or through notes whose reference sits before their first
+heading, see `Includes`) to a top-level heading of the referenced note.
+
+Statement change w.r.t. the first draft, whose second disjunct was
+`∃ r key d child, (key, r) ∈ g.blockRefs ∧ toParent r = some a ∧ toParent b = some d ∧ g.node d = .document d child key`:
+that version is false, see the two counterexamples at the end of this file. -/
 def Step (g : Graph) (a b : Nat) : Prop :=
   Arena.toParent g.arena (fuelOf g) b = some a
-  ∨ ∃ r key d child, (key, r) ∈ g.blockRefs ∧ Arena.toParent g.arena (fuelOf g) r = some a
-      ∧ Arena.toParent g.arena (fuelOf g) b = some d ∧ g.node d = .document d child key
+  ∨ ∃ d, Includes g a d ∧ Arena.toParent g.arena (fuelOf g) b = some d
 
 def isSectionNode (g : Graph) (id : Nat) : Prop :=
   ∃ i p n c xs, g.node id = .node i p n c (.sect xs)
+
+/-- how the last element `l` of a path produced for node `id` relates to `id` (auxiliary) -/
+def LastOk (g : Graph) (id l : Nat) : Prop := (isSectionNode g id ∧ l = id) ∨ Includes g l id
+
+/-- the walk invariant behind `pathsForNode_sound`: additionally tracks the last element of the path -/
+theorem pathsForNode_inv (g : Graph) : ∀ (fuel : Nat) (visited : List Nat) (id : Nat) (p : List Nat),
+    p ∈ pathsForNode g fuel visited id →
+    (∀ x ∈ p, isSectionNode g x) ∧ ChainRel (Step g) p ∧ p.Nodup ∧ (∀ x ∈ p, x ∉ visited)
+      ∧ ∃ l, p.getLast? = some l ∧ LastOk g id l := by
+  intro fuel
+  induction fuel with
+  | zero => intro visited id p hp; simp [pathsForNode] at hp
+  | succ fuel ih =>
+    intro visited id p hp
+    rw [pathsForNode] at hp
+    split at hp
+    · simp at hp
+    · rename_i hvis
+      have hvis' : id ∉ visited := by simpa using hvis
+      split at hp
+      · -- document
+        rename_i i c key hnode
+        simp only [List.mem_flatMap, List.mem_map, List.mem_filter] at hp
+        obtain ⟨r, ⟨⟨k', r'⟩, ⟨hmem, hk⟩, rfl⟩, hp⟩ := hp
+        have hk' : k' = key := by simpa using hk
+        subst hk'
+        cases hpar : Arena.toParent g.arena (fuelOf g) r' with
+        | none => simp [hpar] at hp
+        | some par =>
+          simp only [hpar] at hp
+          obtain ⟨h1, h2, h3, h4, l, hl, hlast⟩ := ih (id :: visited) par p hp
+          refine ⟨h1, h2, h3, fun x hx hv => h4 x hx (List.mem_cons_of_mem _ hv), l, hl, Or.inr ?_⟩
+          rcases hlast with ⟨_, rfl⟩ | hinc
+          · exact Includes.direct hmem hpar hnode
+          · exact Includes.via hmem hpar hinc hnode
+      · -- section
+        rename_i i pr nx c xs hnode
+        have hsect : isSectionNode g id := ⟨_, _, _, _, _, hnode⟩
+        rcases List.mem_append.1 hp with hp | hp
+        · cases hpar : Arena.toParent g.arena (fuelOf g) id with
+          | none => simp [hpar] at hp
+          | some par =>
+            simp only [hpar, List.mem_map] at hp
+            obtain ⟨q, hq, rfl⟩ := hp
+            obtain ⟨h1, h2, h3, h4, l, hl, hlast⟩ := ih (id :: visited) par q hq
+            have hidq : id ∉ q := fun h => h4 id h (by simp)
+            refine ⟨?_, ?_, ?_, ?_, id, by simp, Or.inl ⟨hsect, rfl⟩⟩
+            · intro x hx
+              rcases List.mem_append.1 hx with hx | hx
+              · exact h1 x hx
+              · simp at hx; subst hx; exact hsect
+            · refine ChainRel.snoc h2 hl ?_
+              rcases hlast with ⟨_, rfl⟩ | hinc
+              · exact Or.inl hpar
+              · exact Or.inr ⟨par, hinc, hpar⟩
+            · rw [List.nodup_append]
+              refine ⟨h3, by simp, ?_⟩
+              intro a ha b hb
+              simp at hb; subst hb
+              intro h; subst h; exact hidq ha
+            · intro x hx
+              rcases List.mem_append.1 hx with hx | hx
+              · exact fun hv => h4 x hx (List.mem_cons_of_mem _ hv)
+              · simp at hx; subst hx; exact hvis'
+        · simp at hp; subst hp
+          refine ⟨?_, trivial, by simp, ?_, id, rfl, Or.inl ⟨hsect, rfl⟩⟩
+          · intro x hx; simp at hx; subst hx; exact hsect
+          · intro x hx; simp at hx; subst hx; exact hvis'
+      · simp at hp
 
 /-- **only real chains are listed (walk level)**: every path produced for a node ends at that node,
 consists of section nodes only, every step is a `Step`, and no node occurs twice on it (the cycle
@@ -25,7 +111,10 @@ theorem pathsForNode_sound (g : Graph) (fuel : Nat) (visited : List Nat) (id : N
     (hp : p ∈ pathsForNode g fuel visited id) :
     p ≠ [] ∧ (∀ x ∈ p, isSectionNode g x) ∧ ChainRel (Step g) p ∧ p.Nodup
     ∧ (∀ x ∈ p, x ∉ visited) := by
-  sorry
+  obtain ⟨h1, h2, h3, h4, l, hl, _⟩ := pathsForNode_inv g fuel visited id p hp
+  refine ⟨?_, h1, h2, h3, h4⟩
+  rintro rfl
+  simp at hl
 
 /-- **only real chains are listed (listing level)**: every listed path is a non-empty chain of
 headings; its first heading is a top-level heading (its parent is the note itself) of a note that no
@@ -35,21 +124,44 @@ theorem paths_sound (g : Graph) (p : List Nat) (hp : p ∈ graphToPaths g) :
     ∧ (∃ first par, p.head? = some first ∧ Arena.toParent g.arena (fuelOf g) first = some par
         ∧ (g.node par).isDocument = true
         ∧ ∃ k, g.nodeKey first = some k ∧ g.blockReferencesTo k = []) := by
-  sorry
+  unfold graphToPaths at hp
+  rw [mem_sortDedup, List.mem_filter, List.mem_flatMap] at hp
+  obtain ⟨⟨id, _, hmem⟩, hcond⟩ := hp
+  obtain ⟨h0, h1, h2, h3, _⟩ := pathsForNode_sound g _ _ id p hmem
+  refine ⟨h0, h1, h2, h3, ?_⟩
+  cases hh : p.head? with
+  | none => simp [hh] at hcond
+  | some first =>
+    simp only [hh, Bool.and_eq_true] at hcond
+    obtain ⟨hc1, hc2⟩ := hcond
+    cases hk : g.nodeKey first with
+    | none => simp [hk] at hc1
+    | some k =>
+      cases hpar : Arena.toParent g.arena (fuelOf g) first with
+      | none => simp [hpar] at hc2
+      | some par =>
+        simp only [hk, List.isEmpty_iff] at hc1
+        simp only [hpar] at hc2
+        exact ⟨first, par, rfl, hpar, hc2, k, hk, hc1⟩
 
 /-- the listing has no duplicates and is in the canonical (lexicographic) order, whatever order the
 parallel walk found the paths in -/
 theorem paths_sorted_nodup (g : Graph) :
     (graphToPaths g).Pairwise (fun a b => pathLt a b = true) ∧ (graphToPaths g).Nodup := by
-  sorry
+  unfold graphToPaths
+  exact ⟨sortDedup_sorted _, (sortDedup_sorted _).nodup⟩
 
 /-- `sortDedup` forgets the order and multiplicity in which paths were found (C16 uses this too) -/
 theorem sortDedup_perm_invariant (ps qs : List (List Nat)) (h : ∀ p, p ∈ ps ↔ p ∈ qs) :
     sortDedup ps = sortDedup qs := by
-  sorry
+  refine Sorted.ext (sortDedup_sorted ps) (sortDedup_sorted qs) ?_
+  intro p
+  rw [mem_sortDedup, mem_sortDedup, h]
 
+set_option linter.unusedVariables false in
 /-- **complete for notes nobody references**: in a well-formed graph, if no live block reference
-points to note `s.key`, every top-level heading of that note is listed as a path of its own -/
+points to note `s.key`, every top-level heading of that note is listed as a path of its own
+(the proof only needs the arena part `hc` of well-formedness, not `hkeys` / `hnd`) -/
 theorem top_headings_listed (g : Graph) (segs : List Seg) (s : Seg) (xs : Inlines) (lr : Option LineRange)
     (cs rest : List BTree) (pre : List BTree)
     (hc : Covers 0 segs g.arena) (hs : s ∈ segs)
@@ -58,17 +170,93 @@ theorem top_headings_listed (g : Graph) (segs : List Seg) (s : Seg) (xs : Inline
     (hf : s.forest = pre ++ BTree.mk (.sect xs) lr cs :: rest)
     (hroot : g.blockReferencesTo s.key = []) :
     [s.base + 1 + Arena.sizes pre] ∈ graphToPaths g := by
-  sorry
+  obtain ⟨pre0, post, ha, hb⟩ := Covers.mem_split hc s hs
+  have hb' : pre0.length = s.base := by omega
+  obtain ⟨⟨pr, nx, ch, hnode⟩, ⟨dch, hdoc⟩, hpar⟩ := Seg.top_block ha hb' hf
+  have hbounds := Covers.bounds hc s hs
+  have hlen : s.nodes.length = 1 + (Arena.sizes pre + (1 + Arena.sizes cs + Arena.sizes rest)) := by
+    rw [Seg.length_nodes, hf, Arena.sizes_append]; simp [Arena.sizes, Arena.size]
+  have hpl := Arena.length_le_sizes pre
+  generalize hi : s.base + 1 + Arena.sizes pre = i at hnode hpar
+  have hlt : i < g.arena.length := by omega
+  have hparent : Arena.toParent g.arena (g.arena.length + 1) i = some s.base := hpar _ (by omega)
+  have hkey : g.nodeKey i = some s.key := by
+    have hsc := Arena.segClosed_embed pre0 post s hb'
+    rw [← ha] at hsc
+    unfold Graph.nodeKey
+    rw [hsc.toDocument (i - s.base) i _ (by omega) (by omega) (Nat.le_refl _) (by omega)]
+    simp [Graph.node, hdoc, GNode.key?]
+  have hinlist : Arena.isInList g.arena (g.arena.length + 1) i = false := by
+    rw [Arena.isInList, hnode]
+    simp only [hparent]
+    obtain ⟨m, hm⟩ : ∃ m, g.arena.length = m + 1 := ⟨g.arena.length - 1, by omega⟩
+    rw [hm, Arena.isInList, hdoc]
+  unfold graphToPaths
+  rw [mem_sortDedup, List.mem_filter, List.mem_flatMap]
+  refine ⟨⟨i, ?_, ?_⟩, ?_⟩
+  · rw [List.mem_filter, List.mem_range]
+    refine ⟨hlt, ?_⟩
+    simp only [fuelOf, hinlist, Graph.node, hnode, GNode.isEmpty]
+    rfl
+  · rw [show 2 * g.arena.length + 2 = (2 * g.arena.length + 1) + 1 by omega, pathsForNode]
+    simp only [Graph.node, hnode]
+    simp
+  · simp only [List.head?_cons, hkey, hroot, fuelOf, hparent, Graph.node, hdoc, GNode.isDocument]
+    rfl
 
 /-- **search returns at most 100 entries** -/
 theorem search_at_most_100 (paths : List SearchPath) (scores : List Nat) (e : Bool) :
     (globalSearch paths scores e).length ≤ 100 := by
-  sorry
+  unfold globalSearch
+  simp only [List.length_take]
+  omega
+
+/-- the comparator of `global_search` for an empty query -/
+private def beforeEmpty (a b : SearchPath × Nat) : Bool :=
+  a.1.rank > b.1.rank || (a.1.rank == b.1.rank && a.1.text.utf8ByteSize < b.1.text.utf8ByteSize)
+
+/-- the comparator of `global_search` for a non-empty query -/
+private def beforeQuery (a b : SearchPath × Nat) : Bool :=
+  a.2 > b.2 || (a.2 == b.2 && (a.1.text.utf8ByteSize < b.1.text.utf8ByteSize
+    || (a.1.text.utf8ByteSize == b.1.text.utf8ByteSize && a.1.rank > b.1.rank)))
+
+private theorem beforeEmpty_asymm (a b : SearchPath × Nat) (h : beforeEmpty a b = true) :
+    beforeEmpty b a = false := by
+  generalize ha : a.1.text.utf8ByteSize = sa at *
+  generalize hb : b.1.text.utf8ByteSize = sb at *
+  simp only [beforeEmpty, ha, hb, Bool.or_eq_true, Bool.and_eq_true, decide_eq_true_eq, beq_iff_eq,
+    Bool.or_eq_false_iff, Bool.and_eq_false_iff, decide_eq_false_iff_not, beq_eq_false_iff_ne] at h ⊢
+  omega
+
+private theorem beforeEmpty_trans (a b c : SearchPath × Nat) (h1 : beforeEmpty a b = true)
+    (h2 : beforeEmpty b c = true) : beforeEmpty a c = true := by
+  simp only [beforeEmpty, Bool.or_eq_true, Bool.and_eq_true, decide_eq_true_eq, beq_iff_eq] at h1 h2 ⊢
+  omega
+
+private theorem beforeQuery_asymm (a b : SearchPath × Nat) (h : beforeQuery a b = true) :
+    beforeQuery b a = false := by
+  simp only [beforeQuery, Bool.or_eq_true, Bool.and_eq_true, decide_eq_true_eq, beq_iff_eq,
+    Bool.or_eq_false_iff, Bool.and_eq_false_iff, decide_eq_false_iff_not, beq_eq_false_iff_ne] at h ⊢
+  omega
+
+private theorem beforeQuery_trans (a b c : SearchPath × Nat) (h1 : beforeQuery a b = true)
+    (h2 : beforeQuery b c = true) : beforeQuery a c = true := by
+  simp only [beforeQuery, Bool.or_eq_true, Bool.and_eq_true, decide_eq_true_eq, beq_iff_eq] at h1 h2 ⊢
+  omega
 
 /-- **an empty query lists the most-referenced notes first**: ranks never increase along the result -/
 theorem empty_query_most_referenced_first (paths : List SearchPath) (scores : List Nat) :
     (globalSearch paths scores true).Pairwise (fun a b => b.rank ≤ a.rank) := by
-  sorry
+  unfold globalSearch
+  refine List.Pairwise.sublist (List.take_sublist _ _) ?_
+  rw [List.pairwise_map]
+  have h := sortStable_sorted beforeEmpty_asymm beforeEmpty_trans (paths.zip scores)
+  simp only [if_true]
+  refine List.Pairwise.imp ?_ h
+  intro a b hab
+  simp only [beforeEmpty, Bool.or_eq_false_iff, Bool.and_eq_false_iff, decide_eq_false_iff_not,
+    beq_eq_false_iff_ne] at hab
+  omega
 
 /-- **documented order for a non-empty query**: better fuzzy score first; among equal scores the
 shorter text; among those the higher rank.  Stated on the (path, score) pairs before truncation. -/
@@ -78,7 +266,12 @@ theorem search_order_nonempty (paths : List SearchPath) (scores : List Nat) :
           || (a.1.text.utf8ByteSize == b.1.text.utf8ByteSize && a.1.rank > b.1.rank)))) (paths.zip scores)).Pairwise
       (fun a b => b.2 < a.2 ∨ (b.2 = a.2 ∧ (a.1.text.utf8ByteSize < b.1.text.utf8ByteSize
           ∨ (a.1.text.utf8ByteSize = b.1.text.utf8ByteSize ∧ b.1.rank ≤ a.1.rank)))) := by
-  sorry
+  have h := sortStable_sorted beforeQuery_asymm beforeQuery_trans (paths.zip scores)
+  refine List.Pairwise.imp ?_ h
+  intro a b hab
+  simp only [beforeQuery, Bool.or_eq_false_iff, Bool.and_eq_false_iff, decide_eq_false_iff_not,
+    beq_eq_false_iff_ne] at hab
+  omega
 
 /-- nothing is invented or lost by the sort: the result of `global_search` is a sub-multiset of the
 candidate paths, and all of them when there are at most 100 -/
@@ -86,7 +279,23 @@ theorem search_results_are_paths (paths : List SearchPath) (scores : List Nat) (
     (hlen : scores.length = paths.length) :
     (∀ sp ∈ globalSearch paths scores e, sp ∈ paths)
     ∧ (paths.length ≤ 100 → (globalSearch paths scores e).Perm paths) := by
-  sorry
+  unfold globalSearch
+  have hperm := fun before => (sortStable_perm before (paths.zip scores)).map (·.1)
+  have hzip : (paths.zip scores).map (·.1) = paths := List.map_fst_zip (by omega)
+  constructor
+  · intro sp hsp
+    have := (hperm _).mem_iff.1 (List.mem_of_mem_take hsp)
+    rwa [hzip] at this
+  · intro h100
+    have := hperm (fun (a b : SearchPath × Nat) =>
+      if e then
+        a.1.rank > b.1.rank || (a.1.rank == b.1.rank && a.1.text.utf8ByteSize < b.1.text.utf8ByteSize)
+      else
+        a.2 > b.2 || (a.2 == b.2 && (a.1.text.utf8ByteSize < b.1.text.utf8ByteSize
+          || (a.1.text.utf8ByteSize == b.1.text.utf8ByteSize && a.1.rank > b.1.rank))))
+    rw [hzip] at this
+    rw [List.take_of_length_le (by rw [this.length_eq]; exact h100)]
+    exact this
 
 /-- **symbol names are the heading texts of the chain** (trimmed, joined by a blank; the LSP layer
 joins with ` • `) -/
@@ -94,7 +303,10 @@ theorem names_are_heading_texts (g : Graph) (sp : SearchPath) (h : sp ∈ search
     sp.path ∈ graphToPaths g
     ∧ sp.text = " ".intercalate (sp.path.map fun id => Render.trim (nodeText g id))
     ∧ sp.root = (sp.path.length == 1) := by
-  sorry
+  unfold searchPaths at h
+  have h := (sortStable_perm _ _).mem_iff.1 h
+  obtain ⟨p, hp, rfl⟩ := List.mem_map.1 h
+  exact ⟨hp, rfl, rfl⟩
 
 /-- non-vacuity: note `a` includes `b`; listed paths are `A`, `A • A2`, `A • B` — not `B` alone (it is
 referenced) — as evaluated by the kernel -/
@@ -104,6 +316,57 @@ example :
         ("b", ⟨[.header ⟨0, 1⟩ 1 [.str "B"]], none⟩)] with
      | .ok g => graphToPaths g == [[1], [1, 3], [1, 5]]
      | .error _ => false) = true := by
+  decide
+
+/-! ## why `Step` is not the first draft -/
+
+/-- the first draft of `Step` (false, see below) -/
+def StepDraft (g : Graph) (a b : Nat) : Prop :=
+  Arena.toParent g.arena (fuelOf g) b = some a
+  ∨ ∃ r key d child, (key, r) ∈ g.blockRefs ∧ Arena.toParent g.arena (fuelOf g) r = some a
+      ∧ Arena.toParent g.arena (fuelOf g) b = some d ∧ g.node d = .document d child key
+
+/-- a boolean test implied by `StepDraft` -/
+def stepDraftB (g : Graph) (a b : Nat) : Bool :=
+  Arena.toParent g.arena (fuelOf g) b == some a
+  || g.blockRefs.any fun kr =>
+      Arena.toParent g.arena (fuelOf g) kr.2 == some a
+      && match Arena.toParent g.arena (fuelOf g) b with
+         | some d => (match g.node d with
+                      | .document d' _ key => d' == d && key == kr.1
+                      | _ => false)
+         | none => false
+
+theorem stepDraftB_of_StepDraft {g : Graph} {a b : Nat} (h : StepDraft g a b) : stepDraftB g a b = true := by
+  rcases h with h | ⟨r, key, d, child, h1, h2, h3, h4⟩
+  · simp [stepDraftB, h]
+  · simp only [stepDraftB, Bool.or_eq_true, List.any_eq_true]
+    exact Or.inr ⟨(key, r), h1, by simp [h2, h3, h4]⟩
+
+/-- the draft relation is a special case of `Step` -/
+theorem Step_of_StepDraft {g : Graph} {a b : Nat} (h : StepDraft g a b) : Step g a b := by
+  rcases h with h | ⟨r, key, d, child, h1, h2, h3, h4⟩
+  · exact Or.inl h
+  · exact Or.inr ⟨d, Includes.direct h1 h2 h4, h3⟩
+
+/-- counterexample 1 (a real import): `a` = `# A` + reference to `b`; `b` = only a reference to `c`;
+`c` = `# C`.  `A • C` is listed (path `[1, 6]`), but the section of `A` holds no reference to `c`. -/
+example :
+    (match Graph.importDocs "" [
+        ("a", ⟨[.header ⟨0, 1⟩ 1 [.str "A"], .para ⟨2, 3⟩ [.link "b" "" .regular [.str "x"]]], none⟩),
+        ("b", ⟨[.para ⟨0, 1⟩ [.link "c" "" .regular [.str "y"]]], none⟩),
+        ("c", ⟨[.header ⟨0, 1⟩ 1 [.str "C"]], none⟩)] with
+     | .ok g => graphToPaths g == [[1], [1, 6]] && !stepDraftB g 1 6
+     | .error _ => false) = true := by
+  decide
+
+/-- counterexample 2 (`pathsForNode_sound` has no well-formedness hypothesis): a `Document` node
+whose stored id differs from its index -/
+example :
+    let g : Graph := { arena := [.document 7 (some 1) "k", .node 1 0 none none (.sect []),
+                                 .node 2 2 none (some 3) (.sect []), .node 3 2 none none (.ref "k" "" .regular)],
+                       blockRefs := [("k", 3)] }
+    (pathsForNode g 10 [] 1 == [[2, 1], [1]] && !stepDraftB g 2 1) = true := by
   decide
 
 end Iwe.C18
